@@ -1,5 +1,6 @@
 import DriverLib.Basic
 import DriverLib.Flag
+import DriverLib.CallShape
 import QV.Model.States
 import QV.Model.Prob
 open Lean Drv QV
@@ -123,9 +124,39 @@ def replay (j : Json) : R Json := do
     let r ← parsePRBM (← fld j "p") n h a
     replayWith (B := B) (fun vs => r.gibbsStepsB k vs) (r.callShapes k B) j
 
+/-- op `c05.callform`: a public conditional-probability method on TENSOR arguments, through the model of `auto_unsqueeze_args`.
+in : fn ("rbm_h_given_v"|"rbm_v_given_h"|"p_h_given_v"|"p_a_given_v"|"p_v_given_ha"|"p_energy"), n, h, a?, r (RBM | PRBM record),
+     x = {shape, rows}, y = {shape, rows} | null (second operand of `p_v_given_ha`; explicit auxiliary state of `p_energy`)
+out: {shape, data} | {error} -/
+def callform (j : Json) : R Json := do
+  let fn ← jStr (← fld j "fn")
+  let n ← jNat (← fld j "n")
+  let h ← jNat (← fld j "h")
+  match fn with
+  | "rbm_h_given_v" => do
+    let r ← parseRBM (← fld j "r") n h
+    return ftOut encVec (r.probHGivenV (← parseFT (← fld j "x") n))
+  | "rbm_v_given_h" => do
+    let r ← parseRBM (← fld j "r") n h
+    return ftOut encVec (r.probVGivenH (← parseFT (← fld j "x") h))
+  | _ => do
+    let a ← jNat (← fld j "a")
+    let q ← parsePRBM (← fld j "r") n h a
+    match fn with
+    | "p_h_given_v" => return ftOut encVec (q.probHGivenV (← parseFT (← fld j "x") n))
+    | "p_a_given_v" => return ftOut encVec (q.probAGivenV (← parseFT (← fld j "x") n))
+    | "p_v_given_ha" => do
+      let y ← parseFT (← fld j "y") a
+      return ftOut encVec (q.probVGivenHA (← parseFT (← fld j "x") h) y)
+    | "p_energy" => do
+      let y ← parseFTOpt j "y" a
+      return ftOut encScalar (q.effectiveEnergy (← parseFT (← fld j "x") n) y)
+    | _ => throw s!"c05.callform: unknown fn {fn}"
+
 def handle (op : String) (j : Json) : Option (R Json) :=
   match op with
   | "c05.cond" => some (cond j)
+  | "c05.callform" => some (callform j)
   | "c05.kernel" => some (kernel j)
   | "c05.replay" => some (replay j)
   | _ => none
